@@ -119,6 +119,14 @@ def main_clause(cl, rng, n, replay):
         fn_std = float(rng.choice([0.01, 0.05, 0.1, 0.2, 0.5, 0.0]))        # 0.0: every window peaks on the same frequency sample (normal distribution)
         sr = [(None, None), (None, None), (float(f[2]), None), (None, float(f[-3])), (float(f[1]) * 1.01, float(f[-2]) * 0.99), (float(f[-2]), float(f[2]))][j % 6]
         verbose = j % 3
+        if j % 6 == 1 and (j // 6) % 2 == 0:
+            # the same curves stored from the highest frequency down (process() accepts centre frequencies in any order): the criteria speak about frequencies, not positions.
+            # Only with the full range: with a bounded range the library refuses such a vector (IndexError out of trim_curve), which is no verdict at all
+            # (made one-sided first: a shelf at three quarters of the peak on one side of it, so that criteria i and ii - below / above f0 - have different answers)
+            p0 = int(np.argmax(mc))
+            side = (f < f[p0]) if (j // 12) % 2 else (f > f[p0])
+            mc = np.where(side & (mc < 0.75 * mc[p0]), 0.75 * mc[p0], mc)
+            f, mc, sc = f[::-1].copy(), mc[::-1].copy(), sc[::-1].copy()
         wr, wc = spec_reliability(lw, nw, f, mc, sc, sr), spec_clarity(f, mc, sc, fn_std, sr)
         if wr is None or wc is None or wr[1] or wc[1]:
             cl.skipped += 1
